@@ -38,3 +38,26 @@ Lemma read_bytes_pinned_refuted :
   read_bytes_pinned false usize_max {| mem := [97; 98; 99; 0]; read_index := 1; write_index := 3 |}
   = Panic {| mem := [97; 98; 99; 0]; read_index := 0; write_index := 3 |}.
 Proof. vm_compute. reflexivity. Qed.
+
+(* ReadWriteChain::read as it was before `fix:` commit f472b17: Ok(0) always clears the first reader *)
+From FB Require Import Model.Adapters.
+Section PCH.
+Context {R1S RWS : Type}.
+Variable R1 : Reader R1S.
+Variable R2 : Reader RWS.
+Definition chain_read_pinned (buf : list Z) : M (@cw R1S RWS) (io Z * list Z) :=
+  some_1 <- get_reader_is_some ;;
+  k_2 <- (if some_1 then
+            q_3 <- call_reader_read R1 buf ;;
+            match q_3 with
+            | (Ok num_read, buf_4) =>
+                if (num_read =? 0) then set_reader_none ;;; ret (inr buf_4)
+                else ret (inl (Ok num_read, buf_4))
+            | (Err e, buf_4) => ret (inl (Err e, buf_4))
+            end
+          else ret (inr buf)) ;;
+  match k_2 with
+  | inl r => ret r
+  | inr buf_5 => call_rw_read R2 buf_5
+  end.
+End PCH.
